@@ -28,15 +28,27 @@ func otherName(k int64) int64 { return (k + 1 + 2) % nNames }
 func nameOf(s string) int64 { return nameKey(s) }
 
 func (g *Gen) scenario(p *Pool) []Op {
-	switch g.r.below(9) {
+	switch g.r.below(20) {
 	case 0, 1:
 		return g.scBusStatic(p)
 	case 2, 3:
 		return g.scGhost(p)
 	case 4, 5:
 		return g.scMultiBus(p)
-	default:
+	case 6, 7, 8:
 		return g.scSizes(p)
+	case 9, 10, 11:
+		return g.scReuse(p)
+	case 12, 13:
+		return g.scCrossKey(p)
+	case 14:
+		return g.scRecvBulk(p)
+	case 15, 16:
+		return g.scNestedRemove(p)
+	case 17, 18:
+		return g.scGroupClear(p)
+	default:
+		return g.scBuilder(p)
 	}
 }
 
